@@ -13,6 +13,8 @@ NextReset(j) == IF \E q \in (j + 1)..N : IsReset(q)
 Succ(r) ==
   CASE r.e = "Clear" -> Clear(st, r.res, r.newres)
     [] r.e = "Run" -> Run(st, r.p, r.out, r.res, r.fout, r.fres)
+    [] r.e = "Persist" -> Persist(st, r.made, r.ok, ToJson(r.got), ToJson(r.want), ToJson(r.caller_got), ToJson(r.caller_want))
+    [] r.e = "Note" -> {st}
     [] OTHER -> {}
 TInit == l = 1 /\ st = New
 TNext ==
